@@ -168,6 +168,8 @@ def explore_cfg(args):
     t = explore.explore(ad, max_depth=depth, max_nodes=250000, audit_rng=random.Random(seed_))
     r, pf, dr = conform.walk_tree("Trace_Lysosome", t, constants(c), "c13")
     fails = conform.fails_from(pf, t, sig, {"cfg": c})
+    if t["audit_fail"]:
+        fails += conform.audit_followup(ad, t, "Trace_Lysosome", constants(c), sig, {"cfg": c})
     nontriv = sum(1 for e in t["edges"] if e["obs"]["calls"] or not e["leaf"])
     sample = next(({"cfg": c, "path": t["paths"][e["id"]], "obs": e["obs"], "post": e["post"]} for e in t["edges"]
                    if e["act"]["op"] == "ingest" and len(e["obs"]["calls"]) >= 2), None)
@@ -234,9 +236,8 @@ def run(tier, conc=True):
         res = list(ex.map(explore_cfg, [(c, depth, base.seed()) for c in cs]))
         sres = list(ex.map(simulate_cfg, [(c, 100 if quick else 800, 25, base.seed() + i) for i, c in enumerate(cs[:(6 if quick else 30)])]))
     closed = True
+    conform.settle_audit(res)
     for x in res:
-        if x["audit"]:
-            raise base.MachineryError("dedup audit failed: %s" % x["audit"])
         R.cov["traces_validated_against_impl"] += x["edges"]
         R.cov["evaluations"] += x["edges"]
         R.cov["distinct_nontrivial"] += x["nontrivial"]
